@@ -28,19 +28,19 @@ type c02Wire struct {
 }
 
 type c02Case struct {
-	Mount    string        `json:"mount"`
-	Context  string        `json:"context_path"`
-	Cfg      clientCfg     `json:"client"`
-	Method   string        `json:"method"`
-	Register string        `json:"register"`
-	Args     []interface{} `json:"args"`
-	Wire     *c02Wire      `json:"wire,omitempty"`
-	Invoked  []string      `json:"invoked"`
-	Seen     []interface{} `json:"seen_by_resource,omitempty"`
-	Returned interface{}   `json:"returned_by_resource,omitempty"`
-	Got      interface{}   `json:"received_by_caller,omitempty"`
-	ClientErr string       `json:"client_error,omitempty"`
-	Note     string        `json:"note,omitempty"`
+	Mount     string        `json:"mount"`
+	Context   string        `json:"context_path"`
+	Cfg       clientCfg     `json:"client"`
+	Method    string        `json:"method"`
+	Register  string        `json:"register"`
+	Args      []interface{} `json:"args"`
+	Wire      *c02Wire      `json:"wire,omitempty"`
+	Invoked   []string      `json:"invoked"`
+	Seen      []interface{} `json:"seen_by_resource,omitempty"`
+	Returned  interface{}   `json:"returned_by_resource,omitempty"`
+	Got       interface{}   `json:"received_by_caller,omitempty"`
+	ClientErr string        `json:"client_error,omitempty"`
+	Note      string        `json:"note,omitempty"`
 }
 
 const c02Site = "v2/restli/http.go (newRequest, formatQueryUrl), handler.go (ServeHTTP, receive, registerMethod*), generated ResourcePath / " +
